@@ -75,8 +75,13 @@ def rand_f64(rng) -> float:
     r = rng.random()
     if r < 0.25:
         return rng.choice(F64_SPECIALS)
-    if r < 0.6:
+    if r < 0.45:
         return rng.uniform(-1e6, 1e6)
+    if r < 0.65:
+        # doubles that are also exact singles / short binary fractions (what global coordinates and counters look like):
+        # many decimal digits, few bits
+        return rng.choice([f32(rng.uniform(-1e6, 1e6)), f32(rng.uniform(0, 300000)), rng.randrange(0, 1 << 24) / 16.0,
+                           256123.4375, f32(0.1), rng.randrange(-(1 << 30), 1 << 30) / 1024.0])
     while True:
         v = struct.unpack("<d", struct.pack("<Q", rng.getrandbits(64)))[0]
         if v == v:
